@@ -8,13 +8,14 @@ for P in $IDS; do
   python3 - "$P" <<'PY' "$out"
 import json,sys,re,os,subprocess
 P=sys.argv[1]; out=open('/tmp/seedall_%s.log'%P).read()
-m=re.search(r'CHECK %s on mutant: rc=(\d+) (\d+) violation'%P,out)
+Q=P.split('_')[0]
+m=re.search(r'CHECK %s on mutant: rc=(\d+) (\d+) violation'%Q,out)
 viol=[l for l in out.splitlines() if l.startswith('VIOLATION')]
 dw=re.search(r'demo with patch: rc=(\d+)',out); dwo=re.search(r'demo without patch: rc=(\d+)',out)
 path='/verif/seeded/%s/result.json'%P
 old=json.load(open(path)) if os.path.exists(path) else {}
 res=dict(old)
-res.update({"property":P,"own_check_rc":int(m.group(1)) if m else None,"own_check_violation_lines":viol[:3],
+res.update({"property":Q,"own_check_rc":int(m.group(1)) if m else None,"own_check_violation_lines":viol[:3],
  "caught_by_own_check": bool(m and m.group(1)=='1' and viol),
  "concrete_replay": bool(viol) and not all(v.rstrip().endswith('no-failing-input-found') for v in viol),
  "demo_rc_with_patch":int(dw.group(1)) if dw else None,"demo_rc_without_patch":int(dwo.group(1)) if dwo else None,
